@@ -100,6 +100,20 @@ Definition m_count (c : call) (v : sfv) : res :=
               RInt (count_loop (m_match c) (if v_from_end v then rev w else w) 0)
   end.
 
+(* ---- in-place reversal loops ------------------------------------------------------------------------ *)
+Fixpoint upd (i : nat) (v : Z) (l : list Z) : list Z :=
+  match l, i with [], _ => [] | _ :: t, O => v :: t | x :: t, S i' => x :: upd i' v t end.
+Definition swap (l : list Z) (i j : nat) : list Z := upd j (nth i l 0) (upd i (nth j l 0) l).
+Fixpoint swap_down (l : list Z) (mx i : nat) : list Z :=
+  match i with O => swap l 0 mx | S i' => swap_down (swap l i (mx - i)) mx i' end.
+(* delete.go, delete-duplicates.go: "reverse list":
+   for i := len(list)/2 - 1; 0 <= i; i-- { list[i], list[len(list)-i-1] = list[len(list)-i-1], list[i] } *)
+Definition go_reverse (l : list Z) : list Z :=
+  match (length l / 2)%nat with
+  | O => l
+  | S i => swap_down l (length l - 1) i
+  end.
+
 (* ---- delete.go / delete-if.go (remove, remove-if embed them) ---------------------------------- *)
 Definition indexed (l : list Z) : list (nat * Z) := combine (seq 0 (length l)) l.
 Fixpoint del_loop (p : Z -> bool) (start e : nat) (limit : option Z) (ps : list (nat * Z)) (cnt : Z) : list Z :=
@@ -113,7 +127,7 @@ Fixpoint del_loop (p : Z -> bool) (start e : nat) (limit : option Z) (ps : list 
   end.
 Definition m_delete_list (p : Z -> bool) (v : sfv) (glen : nat) (l : list Z) : list Z :=
   let e := norm_end glen (v_end v) in
-  if v_from_end v then rev (del_loop p (v_start v) e (v_count v) (rev (indexed l)) 0)   (* collected backwards, then reversed *)
+  if v_from_end v then go_reverse (del_loop p (v_start v) e (v_count v) (rev (indexed l)) 0)   (* collected backwards, then reversed *)
   else del_loop p (v_start v) e (v_count v) (indexed l) 0.
 Definition m_delete (c : call) (v : sfv) : res :=
   match c_seq c with
@@ -167,7 +181,7 @@ Definition m_dups (c : call) (v : sfv) : res :=
   | s => let l := elems s in
          let e := norm_end (go_len s) (v_end v) in
          RSeq (if v_from_end v then dup_loop (c_test c) (c_key c) (v_start v) e (indexed l) []
-               else rev (dup_loop (c_test c) (c_key c) (v_start v) e (rev (indexed l)) []))
+               else go_reverse (dup_loop (c_test c) (c_key c) (v_start v) e (rev (indexed l)) []))
   end.
 
 (* ==== member.go / member-if.go ===================================================================== *)
@@ -351,12 +365,7 @@ Definition m_fill (c : call) : res :=
   end.
 
 (* ==== reverse.go / nreverse.go ======================================================================= *)
-(* max := len-1; for i := max/2; 0 <= i; i-- { nl[i], nl[max-i] = nl[max-i], nl[i] } *)
-Fixpoint upd (i : nat) (v : Z) (l : list Z) : list Z :=
-  match l, i with [], _ => [] | _ :: t, O => v :: t | x :: t, S i' => x :: upd i' v t end.
-Definition swap (l : list Z) (i j : nat) : list Z := upd j (nth i l 0) (upd i (nth j l 0) l).
-Fixpoint swap_down (l : list Z) (mx i : nat) : list Z :=
-  match i with O => swap l 0 mx | S i' => swap_down (swap l i (mx - i)) mx i' end.
+(* max := len-1; for i := max/2; 0 <= i; i-- { nl[i], nl[max-i] = nl[max-i], nl[i] }   (swap_down is defined above) *)
 Definition m_reverse_list (l : list Z) : list Z :=
   match l with [] => [] | _ => swap_down l (length l - 1) ((length l - 1) / 2) end.
 Definition m_reverse (c : call) : res := RSeq (m_reverse_list (elems (c_seq c))).
@@ -483,33 +492,33 @@ Definition m_mapcar (c : call) : res :=
 (* :end first (0 <= end <= len), then :start against the shortened list (0 <= start < len), then
    :key over the elements (written back into the list), then the fold; an empty list gives the
    initial value or the Go nil *)
+Definition m_reduce_list (c : call) (l : list Z) : res :=
+  match (match c_end c with None => Some l | Some e => if (e <=? length l)%nat then Some (firstn e l) else None end) with
+  | None => RErr EType
+  | Some l1 =>
+  match (match c_start c with None => Some l1 | Some st => if (st <? length l1)%nat then Some (skipn st l1) else None end) with
+  | None => RErr EType
+  | Some l2 =>
+      let ks := map (key_app (c_key c)) l2 in
+      match ks with
+      | [] => match c_init c with Some v => RElt v | None => RNil end
+      | x :: r =>
+          if c_from_end c then
+            match c_init c with
+            | Some v => RElt (fold_right (fun e acc => binop_app (c_op c) e acc) v ks)
+            | None => RElt (fold_right (fun e acc => binop_app (c_op c) e acc) (last ks 0) (removelast ks))
+            end
+          else
+            match c_init c with
+            | Some v => RElt (fold_left (fun acc e => binop_app (c_op c) acc e) ks v)
+            | None => RElt (fold_left (fun acc e => binop_app (c_op c) acc e) r x)
+            end
+      end
+  end end.
 Definition m_reduce (c : call) : res :=
   match c_seq c with
   | SNil => RErr EFault
-  | s =>
-      let l := elems s in
-      match (match c_end c with None => Some l | Some e => if (e <=? length l)%nat then Some (firstn e l) else None end) with
-      | None => RErr EType
-      | Some l1 =>
-      match (match c_start c with None => Some l1 | Some st => if (st <? length l1)%nat then Some (skipn st l1) else None end) with
-      | None => RErr EType
-      | Some l2 =>
-          let ks := map (key_app (c_key c)) l2 in
-          match ks with
-          | [] => match c_init c with Some v => RElt v | None => RNil end
-          | x :: r =>
-              if c_from_end c then
-                match c_init c with
-                | Some v => RElt (fold_right (fun e acc => binop_app (c_op c) e acc) v ks)
-                | None => RElt (fold_right (fun e acc => binop_app (c_op c) e acc) (last ks 0) (removelast ks))
-                end
-              else
-                match c_init c with
-                | Some v => RElt (fold_left (fun acc e => binop_app (c_op c) acc e) ks v)
-                | None => RElt (fold_left (fun acc e => binop_app (c_op c) acc e) r x)
-                end
-          end
-      end end
+  | s => m_reduce_list c (elems s)
   end.
 
 (* ==== concatenate.go ================================================================================= *)
